@@ -309,3 +309,12 @@ Theorem lexer_reads_rendered_domains : forall ds rest,
   = (mkS rest false, map (fun d => (fst d, map dtok_of (snd d))) ds).
 Proof. exact read_domains_rendered. Qed.
 Print Assumptions lexer_reads_rendered_domains.
+
+(* --- .cond round trip at character level: a file written line by line (comments anywhere, "name value" entries in any
+   order) is read back as the names of its entries in order; the k-th entry carries the k-th value, so with
+   cond_attached_by_name the name -> value table is recovered.  (A name without a value token is an error since e52f7cb;
+   whether a token is a number is modelled in coq/Geom/CondSensors.v.) *)
+From OM Require Import Geom.CondLexProofs.
+Theorem cond_render_roundtrip : forall ls, Forall kline_ok ls -> lex_cond (render_cond ls) = Some (entry_names ls).
+Proof. exact CondLexProofs.cond_render_roundtrip. Qed.
+Print Assumptions cond_render_roundtrip.
